@@ -93,6 +93,19 @@ def variants_of(hist: History, dev: Any, row_order: str) -> List[Tuple[History, 
         # year differs from its UTC year
         h2 = tuple((it[0], it[1], -300) for it in hist)
         return [(h2, H.materialize(h2, row_order=row_order, base=datetime(2021, 1, 1, 2, 30, 0, tzinfo=timezone.utc)))]
+    if dev == "supplied":
+        # exchange-supplied fiat columns that do not add up (a fee rebate: with-fee = no-fee + half of the fee): RP2 takes them verbatim; the summary
+        # and the detail must still be computed from the SAME figures
+        specs = H.materialize(hist, row_order=row_order)
+        if specs is None:
+            return [(hist, None)]
+        out_specs = []
+        for sp in specs:
+            if sp["table"] == "in":
+                no_fee = Fraction(sp["crypto_in"]) * Fraction(sp["spot_price"])
+                sp = dict(sp, fiat_in_no_fee=H.dec(no_fee), fiat_fee="1", fiat_in_with_fee=H.dec(no_fee + Fraction(1, 2)))
+            out_specs.append(sp)
+        return [(hist, out_specs)]
     if dev == "mixed":
         # instants at 20:00, 22:00, 00:00, 02:00 UTC around midnight of Dec 30/31 and of Dec 31/Jan 1, one transaction (every position)
         # written at +09:00 / -05:00: own calendar dates are NOT monotonic along the order of the instants (20:00Z at +09:00 is already
@@ -208,12 +221,14 @@ def plan(tier: str) -> List[Dict[str, Any]]:
             {"name": "multi-year tree, depth 4, hifo", "schedules": [((1970, "hifo"),)], "steps": STEPS, "depth": 4, "dev": 0, "group": 1, "from_depth": 4},
             {"name": "timestamps at -05:00 on New Year's Eve (own year != UTC year)", "schedules": [((1970, "fifo"),)], "steps": STEPS, "depth": 3, "dev": "tz", "group": 1},
             {"name": "2-hour steps across midnight, one transaction in another UTC offset (own dates not monotonic)", "schedules": [((1970, "fifo"),)], "steps": ("d",), "depth": 3, "dev": "mixed", "group": 1},
+            {"name": "exchange-supplied fiat columns that do not add up (with-fee != no-fee + fee)", "schedules": [((1970, "fifo"),), ((1970, "hifo"),)], "steps": STEPS, "depth": 3, "dev": "supplied", "group": 1},
         ]
     return [
         {"name": "multi-year tree, 4 methods", "schedules": sch + [((1970, "lofo"),)], "steps": STEPS, "depth": 4, "dev": 0, "group": 1},
         {"name": "sheet order reversed", "schedules": sch, "steps": STEPS, "depth": 3, "dev": 0, "group": 1, "row_order": "reverse"},
         {"name": "timestamps at -05:00 on New Year's Eve (own year != UTC year)", "schedules": sch, "steps": STEPS, "depth": 3, "dev": "tz", "group": 1},
         {"name": "2-hour steps across midnight, one transaction in another UTC offset (own dates not monotonic)", "schedules": sch, "steps": ("d",), "depth": 4, "dev": "mixed", "group": 1},
+        {"name": "exchange-supplied fiat columns that do not add up (with-fee != no-fee + fee)", "schedules": sch, "steps": STEPS, "depth": 4, "dev": "supplied", "group": 1},
         {"name": "multi-year tree, depth 5, fifo+hifo", "schedules": [((1970, "fifo"),), ((1970, "hifo"),)], "steps": STEPS, "depth": 5, "dev": 0, "group": 1, "from_depth": 5},
     ]
 
